@@ -343,7 +343,7 @@ class ClimateData(Data, Cached):
         """
         # If data are anomalies skip automatic calculation of anomalies
         if self.anomalies:
-            return self._full_observable
+            return self.observable()
 
         observable = self.observable()
         time_cycle = self.time_cycle
